@@ -82,6 +82,14 @@ def units(tier, seed):
 
 
 def styled(to, style, X):
+    if style in ("dimset", "dimset-foreign"):
+        # a DimensionSet object as the request: the array's own subset, or a set with the same letters and names
+        # whose dimensions hold OTHER items of the same number (the result is labelled with the array's own items)
+        from flodym import Dimension, DimensionSet
+
+        if style == "dimset":
+            return X.dims.get_subset(tuple(to))
+        return DimensionSet(dim_list=[Dimension(name=X.dims[l].name, letter=l, items=[f"other {i}" for i in range(X.dims[l].len)]) for l in to])
     out = []
     for k, l in enumerate(to):
         s = style if style != "mixed" else ("letters", "names", "objects")[k % 3]
@@ -98,6 +106,9 @@ def requests(lx, universe):
             if len(to) < 2 and style == "mixed":
                 continue
             yield ("sum_to", "".join(to), style)
+        if to:
+            yield ("sum_to", "".join(to), "dimset")
+            yield ("sum_to", "".join(to), "dimset-foreign")
     for sub in S.subsets(lx):
         for order in ("fwd", "rev"):
             if order == "rev" and len(sub) < 2:
@@ -249,6 +260,8 @@ def run_case(pattern, lx, prov, universe, assign, req, stage="fresh"):
         raise ValueError(op)
 
     st, got = attempt(call)
+    if style == "dimset-foreign" and st == "raised":
+        return "refused-as-required", None  # refusing dimensions with foreign items is fine; mislabelling is not
     if must_raise:
         if st == "raised":
             return "refused-as-required", None
@@ -298,7 +311,7 @@ def run_case(pattern, lx, prov, universe, assign, req, stage="fresh"):
 def assigns_for(req, tier):
     op = req[0]
     if op in ("shares",):
-        return ("pow2", "base", "signed", "tiny", "huge", "int")
+        return ("pow2", "base", "signed", "tiny", "huge", "int", "u8")
     if op.endswith("unknown") or op == "identity":
         return ("base",)
     if tier == "quick":
